@@ -215,6 +215,16 @@ def join_blocks(
                 new_k = block1.size + k
                 new_displacement_map.setdefault(new_k, []).extend(v)
 
+    if isinstance(block2, gtirb.DataBlock):
+        # block2 goes away: its type and encoding must not stay behind in
+        # the tables. An empty block1 takes over block2 and what it is.
+        for table_def in (_auxdata.types, _auxdata.encodings):
+            table_data = table_def.get(module)
+            if table_data and block2 in table_data:
+                value = table_data.pop(block2)
+                if not block1.size:
+                    table_data.setdefault(block1, value)
+
     alignment_data = _auxdata.alignment.get(module)
     if alignment_data:
         block1_align = alignment_data.get(block1, 1)
